@@ -75,6 +75,17 @@ where
     }
 }
 
+#[cfg(feature = "verif-hooks")]
+impl<T> RateLimiter<T>
+where
+    T: Eq + Copy + Hash,
+{
+    /// Verification hook: the keys that are currently tracked by this rate limiter.
+    pub fn verif_tracked_keys(&self) -> Vec<T> {
+        self.buckets.keys().copied().collect()
+    }
+}
+
 #[cfg(test)]
 mod tests {
     use super::*;
